@@ -713,6 +713,13 @@ def grid_affine_sampling(ctx, kind, deg, mult, rational, ab, n, via):
                                              prm[0], prm[1], prm[2])[0], 'L.weight_function_positive')
         ctx.check_eq_vec('evaluate_single', _call(ctx, 'evaluate_single', F.evaluate_single,
                                                   [a * q + b for q, (a, b) in zip(prm, maps)]), N.evaluate_single(prm))
+    if not rational:
+        # the list entry point, two parameter tuples (the second one is the upper corner of the domain)
+        plist = [[shapes.param_in(ctx, nm + 'l', ctx.lit(0), ctx.lit(1)) for nm in names], [ctx.lit(1)] * nd]
+        wl = N.evaluate_list([list(q) for q in plist])
+        gl = _call(ctx, 'evaluate_list', F.evaluate_list, [[a * q + b for q, (a, b) in zip(pr, maps)] for pr in plist])
+        ctx.check_true('evaluate_list.count', len(wl) == 2 and len(gl) == 2, '%d points for 2 parameter tuples of the domain' % len(gl))
+        ctx.check_eq_grid('evaluate_list', gl, wl)
 
 
 # ------------------------------------------------------------------------------------------------
@@ -988,7 +995,10 @@ def real_pools(ctx, target, num_procs, params):
 def _affine_tess_shapes(tier):
     out = [dict(pu=2, pv=1, mu=[1], mv=[], ab=[['1', '0'], ['1', '0']], n=[3, 2]),
            dict(pu=2, pv=1, mu=[1], mv=[], ab=[['2', '3'], ['1', '0']], n=[3, 2]),
-           dict(pu=1, pv=2, mu=[], mv=[], ab=[['1', '0'], ['1/2', '1/4']], n=[2, 3])]
+           dict(pu=1, pv=2, mu=[], mv=[], ab=[['1', '0'], ['1/2', '1/4']], n=[2, 3]),
+           # unclamped knot vectors (concrete, uniform): the parametric domain is smaller than the knot range
+           dict(pu=2, pv=1, mu=[1], mv=[], ab=[['3', '2'], ['1', '0']], n=[3, 2], clamped=False),
+           dict(pu=1, pv=2, mu=[], mv=[1], ab=[['1', '0'], ['1/2', '-1']], n=[2, 3], clamped=False)]
     if tier == 'thorough':
         out += [dict(pu=2, pv=2, mu=[1], mv=[1], ab=[['10', '-5'], ['1/2', '1']], n=[4, 3])]
     return out
@@ -997,14 +1007,29 @@ def _affine_tess_shapes(tier):
 @scenario('C17', fns=['abstract.Surface.tessellate', 'tessellate.TrimTessellate.tessellate', 'abstract.Surface.vertices',
                       'abstract.Surface.faces', 'BSpline.Surface.evaluate_single', 'utilities.check_params'],
           quick=lambda: _affine_tess_shapes('quick'), thorough=lambda: _affine_tess_shapes('thorough'))
-def surface_affine_tessellate(ctx, pu, pv, mu, mv, ab, n):
+def surface_affine_tessellate(ctx, pu, pv, mu, mv, ab, n, clamped=True):
     """config  : N = Surface(normalize_kv=True), F = Surface(normalize_kv=False), both given a_u*U + b_u, a_v*V + b_v (CONCRETE
                  maps, symbolic interior knots and control points), both with delta = (1/n_u, 1/n_v)
        ensures : tessellate() does not raise on F; same number of vertices and faces, same vertex ids and face vertex ids,
                  every vertex has the same coordinates (the surface point of the affinely mapped parameter)"""
-    U, V, iu, iv, su, sv, (au, bu), (av, bv), P, W, N, F = _affine_surface_setup(ctx, pu, pv, mu, mv, False, ab)
+    if clamped:
+        U, V, iu, iv, su, sv, (au, bu), (av, bv), P, W, N, F = _affine_surface_setup(ctx, pu, pv, mu, mv, False, ab)
+    else:
+        su, sv = pu + 1 + sum(mu), pv + 1 + sum(mv)
+        U = [ctx.lit(Fraction(i, su + pu)) for i in range(su + pu + 1)]
+        V = [ctx.lit(Fraction(i, sv + pv)) for i in range(sv + pv + 1)]
+        (au, bu), (av, bv) = _ab(ctx, ab[0], 'u'), _ab(ctx, ab[1], 'v')
+        P = shapes.net(ctx, 'P', su * sv, 3)
+        N = _surface(ctx, pu, pv, [au * k + bu for k in U], [av * k + bv for k in V], P, su, sv, None, normalize_kv=True)
+        F = _surface(ctx, pu, pv, [au * k + bu for k in U], [av * k + bv for k in V], P, su, sv, None, normalize_kv=False)
     for obj in (N, F):
         obj.delta = [ctx.lit(Fraction(1, n[0])), ctx.lit(Fraction(1, n[1]))]
+    if not clamped:
+        # the vertices of the default triangulation are the sampled points of the surface, in the documented grid order
+        grid = [list(q) for q in N.evalpts]
+        N.tessellate()
+        ctx.check_true('normalised.vertices=sampled_grid.count', len(N.vertices) == len(grid))
+        ctx.check_eq_grid('normalised.vertices=sampled_grid', [list(v.data) for v in N.vertices], grid)
     N.tessellate()
     _call(ctx, 'tessellate', F.tessellate)
     want = _mesh(N.vertices, N.faces)
